@@ -98,6 +98,21 @@ def _option_chain(it, st):
     return expr
 
 
+def _unself(node, ty):
+    """`Self::X` -> `<ty>::X` in a copy that moves out of the impl block"""
+    if isinstance(node, list):
+        return [_unself(x, ty) for x in node]
+    if not isinstance(node, dict):
+        return node
+    out = {k: (_unself(v, ty) if not (isinstance(k, str) and k.startswith('_')) else v) for k, v in node.items()}
+    if 'segs' in out and isinstance(out.get('segs'), list) and out['segs'] and out['segs'][0].get('id') == 'Self' and isinstance(out.get('s'), str):
+        segs = [dict(x) for x in out['segs']]
+        segs[0]['id'] = ty
+        out['segs'] = segs
+        out['s'] = ty + out['s'][4:]
+    return out
+
+
 def inlinable(g, with_try):
     """(params, statements, value expression) of a helper that can be substituted for a call; with_try: the call is `g(..)?`
     (the helper must end in `Ok(E)`; `return Err(..)` and `?` inside are fine); otherwise the helper must not return early or use `?`
@@ -105,7 +120,7 @@ def inlinable(g, with_try):
     it = g.item
     if it.get('vis') not in ('', None) and not (it.get('vis') or '').startswith('pub(super)'):
         return None
-    if g.self_ty is not None:
+    if g.self_ty is not None and (it['sig']['inputs'] and it['sig']['inputs'][0].get('k') == 'Self'):
         return None
     blk = it['block']
     st = blk.get('stmts', [])
@@ -162,6 +177,11 @@ def _candidates(crate, caller, call):
         mods = [caller.module]
     elif len(segs) == 2 and segs[0] == 'super':
         mods = [m for m in crate.modules.values() if tuple(m.path) == tuple(caller.module.path[:-1])]
+    elif len(segs) == 2 and (segs[0] == 'Self' and caller.self_ty or segs[0][:1].isupper()):
+        # a private associated function without receiver (`Self::helper(..)` / `Type::helper(..)`) of a type of the same module
+        ty = caller.self_ty if segs[0] == 'Self' else segs[0]
+        return [g for g in crate.fns if g.name == name and g.module is caller.module and g.self_ty == ty and g is not caller
+                and not (g.item['sig']['inputs'] and g.item['sig']['inputs'][0].get('k') == 'Self')]
     else:
         return []
     return [g for g in crate.fns if g.name == name and g.module in mods and g.self_ty is None and g is not caller]
@@ -228,6 +248,9 @@ def expand_call(crate, caller, call, with_try, stmt_position):
     crate.inlined_into[id(g)] = crate.inlined_into.get(id(g), 0) + 1
     body = copy.deepcopy([_rename(s_, mapping) for s_ in stmts])
     val = copy.deepcopy(_rename(value, mapping))
+    if g.self_ty is not None and caller.self_ty != g.self_ty:
+        body = [_unself(s_, g.self_ty) for s_ in body]
+        val = _unself(val, g.self_ty)
     if not lets and not body:
         return dict(val, inlined_expr=g.qname) if isinstance(val, dict) else val
     return {'k': 'Block', 'l': l, 'inlined': g.qname,
@@ -368,7 +391,15 @@ def inline_closures(crate):
                 continue
             calls = [x for x in walk_json(blk) if isinstance(x, dict) and x.get('k') == 'Call' and isinstance(x.get('func'), dict)
                      and x['func'].get('k') == 'Path' and x['func']['path'].get('s') == name and len(x['args']) == len(params)]
-            if not calls or _count_uses(blk, name) != len(calls) or _binder_count(blk, name) != 1:
+            # `let _ = f;` ("avoid unused warnings" under some cfg) is not a use that matters
+            discards = []
+            for x in walk_json(blk):
+                if isinstance(x, dict) and x.get('k') == 'Block' and isinstance(x.get('stmts'), list):
+                    for s2 in x['stmts']:
+                        if s2.get('k') == 'Local' and s2['pat'].get('k') == 'Wild' and isinstance(s2.get('init'), dict) and s2['init'].get('k') == 'Path' \
+                                and s2['init']['path'].get('s') == name:
+                            discards.append((x, s2))
+            if not calls or _count_uses(blk, name) != len(calls) + len(discards) or _binder_count(blk, name) != 1:
                 continue
             free = set()
             _free_names(body, free)
@@ -403,6 +434,8 @@ def inline_closures(crate):
                 c.update(keep)
                 n += 1
             holder['stmts'] = [s_ for s_ in holder['stmts'] if s_ is not st]
+            for hx, s2 in discards:
+                hx['stmts'] = [s_ for s_ in hx['stmts'] if s_ is not s2]
     return n
 
 
@@ -528,6 +561,186 @@ def _placement(blk, call):
     return best
 
 
+def _some_arms(m):
+    """for `match S { P => Some(V), .., Q => None }` (block-wrapped values allowed): [(arm, V or None)], else None"""
+    if not isinstance(m, dict) or m.get('k') != 'Match':
+        return None
+    out = []
+    for a in m['arms']:
+        if a.get('guard') is not None:
+            return None
+        b = a['body']
+        while isinstance(b, dict) and b.get('k') == 'Block' and len(b.get('stmts', [])) == 1 and b['stmts'][0].get('k') == 'Expr' and not b['stmts'][0].get('semi'):
+            b = b['stmts'][0]['expr']
+        if isinstance(b, dict) and b.get('k') == 'Call' and b['func'].get('k') == 'Path' and b['func']['path'].get('s') == 'Some' and len(b['args']) == 1:
+            out.append((a, b['args'][0]))
+        elif isinstance(b, dict) and b.get('k') == 'Path' and b['path'].get('s') == 'None':
+            out.append((a, None))
+        else:
+            return None
+    return out
+
+
+def case_of_case(crate):
+    """after inlining a classification helper (`fn kind(x) -> Option<T> { match x { A => Some(..), B => Some(..), _ => None } }`):
+      `if let Some(p) = match S { A => Some(V1), _ => None } { BODY }`    ->  `match S { A => { let p = V1; BODY }, _ => {} }`
+      `(match S { A => Some(V1), _ => None }).unwrap_or_else(|| E)`        ->  `match S { A => V1, _ => E }`      (also `unwrap_or(E)`)"""
+    n = 0
+
+    def split_prefix(e):
+        """`{ let a = ..; let b = ..; match .. }` -> ([lets], match)"""
+        if isinstance(e, dict) and e.get('k') == 'Block' and e.get('stmts') and all(s_.get('k') == 'Local' for s_ in e['stmts'][:-1]) \
+                and e['stmts'][-1].get('k') == 'Expr' and not e['stmts'][-1].get('semi'):
+            return e['stmts'][:-1], e['stmts'][-1]['expr']
+        return [], e
+
+    def wrap(lets, new, l):
+        if not lets:
+            return new
+        return {'k': 'Block', 'l': l, 'stmts': lets + [{'k': 'Expr', 'expr': new, 'semi': False, 'l': l}]}
+
+    def rewrite(node):
+        nonlocal n
+        if isinstance(node, list):
+            for x in node:
+                rewrite(x)
+            return
+        if not isinstance(node, dict):
+            return
+        for k, v in list(node.items()):
+            if isinstance(k, str) and k.startswith('_'):
+                continue
+            if isinstance(v, (dict, list)):
+                rewrite(v)
+        if node.get('k') == 'If' and node.get('else') is None and isinstance(node.get('cond'), dict) and node['cond'].get('k') == 'Let':
+            c = node['cond']
+            lets, mexpr = split_prefix(c['expr'])
+            sa = _some_arms(mexpr)
+            p = c['pat']
+            if sa is not None and p.get('k') == 'TupleStruct' and p['path']['s'] == 'Some' and len(p['elems']) == 1 and any(v is not None for _, v in sa):
+                l = node.get('l', 0)
+                arms = []
+                for a, v in sa:
+                    a2 = dict(a)
+                    if v is None:
+                        a2['body'] = {'k': 'Block', 'l': l, 'stmts': []}
+                    else:
+                        a2['body'] = {'k': 'Block', 'l': l, 'stmts': [
+                            {'k': 'Local', 'l': l, 'attrs': [], 'else': None, 'ty': None, 'pat': copy.deepcopy(p['elems'][0]), 'init': v}] + copy.deepcopy(node['then']['stmts'])}
+                    arms.append(a2)
+                new = wrap(lets, {'k': 'Match', 'l': l, 'expr': mexpr['expr'], 'arms': arms, 'desugared': 'case-of-case'}, l)
+                keep = {k_: v_ for k_, v_ in node.items() if isinstance(k_, str) and k_.startswith('_')}
+                node.clear()
+                node.update(new)
+                node.update(keep)
+                n += 1
+                return
+        if node.get('k') == 'MethodCall' and node.get('method') in ('unwrap_or_else', 'unwrap_or') and len(node.get('args', [])) == 1:
+            lets, mexpr = split_prefix(node['recv'])
+            sa = _some_arms(mexpr)
+            if sa is not None:
+                e = node['args'][0]
+                if node['method'] == 'unwrap_or_else':
+                    if e.get('k') != 'Closure' or e.get('params'):
+                        return
+                    e = e['body']
+                l = node.get('l', 0)
+                arms = []
+                for a, v in sa:
+                    a2 = dict(a)
+                    a2['body'] = v if v is not None else copy.deepcopy(e)
+                    arms.append(a2)
+                new = wrap(lets, {'k': 'Match', 'l': l, 'expr': mexpr['expr'], 'arms': arms, 'desugared': 'case-of-case'}, l)
+                keep = {k_: v_ for k_, v_ in node.items() if isinstance(k_, str) and k_.startswith('_')}
+                node.clear()
+                node.update(new)
+                node.update(keep)
+                n += 1
+    for f in crate.fns:
+        rewrite(f.item.get('block'))
+    return n
+
+
+def _is_quote(e):
+    return isinstance(e, dict) and e.get('k') == 'Macro' and isinstance(e.get('mac'), dict) and isinstance(e['mac'].get('tmpl'), list)
+
+
+def _float_into(e, name, follow, l):
+    """E is `if c { ..; quote!(A) } else { ..; quote!(B) }` (nested `if`s in the branches allowed): the same `if` with
+    `let name = quote!(..); <follow>` at the end of every branch; None if E has another shape"""
+    while isinstance(e, dict) and e.get('k') == 'Block' and len(e.get('stmts', [])) == 1 and e['stmts'][0].get('k') == 'Expr' and not e['stmts'][0].get('semi'):
+        e = e['stmts'][0]['expr']
+    if not (isinstance(e, dict) and e.get('k') == 'If' and e.get('else') is not None):
+        return None
+
+    def branch(b):
+        if b.get('k') == 'If':
+            r = _float_into(b, name, follow, l)
+            return None if r is None else {'k': 'Block', 'l': l, 'stmts': [{'k': 'Expr', 'expr': r, 'semi': False, 'l': l}]}
+        if b.get('k') != 'Block' or not b.get('stmts') or b['stmts'][-1].get('k') != 'Expr' or b['stmts'][-1].get('semi'):
+            return None
+        tail = b['stmts'][-1]['expr']
+        if tail.get('k') == 'If' or (tail.get('k') == 'Block'):
+            r = _float_into(tail, name, follow, l)
+            if r is None:
+                return None
+            return {'k': 'Block', 'l': b.get('l', l), 'stmts': b['stmts'][:-1] + [{'k': 'Expr', 'expr': r, 'semi': False, 'l': l}]}
+        if not _is_quote(tail):
+            return None
+        let = {'k': 'Local', 'l': l, 'attrs': [], 'else': None, 'ty': None, 'init': tail,
+               'pat': {'k': 'Ident', 'name': name, 'by_ref': False, 'mut': False, 'sub': None, 'l': l}}
+        return {'k': 'Block', 'l': b.get('l', l), 'stmts': b['stmts'][:-1] + [let, copy.deepcopy(follow)]}
+    t, el = branch(e['then']), branch(e['else'])
+    if t is None or el is None:
+        return None
+    out = dict(e)
+    out['then'], out['else'] = t, el
+    out['floated'] = name
+    return out
+
+
+def float_conditional_streams(crate):
+    """N23: `let v = if c { ..; quote!(A) } else { ..; quote!(B) }; acc.extend(quote!(.. #v ..));` (v used by that one statement only;
+    typically an inlined helper that returns the piece to interpolate) is `if c { ..; acc.extend(quote!(.. A ..)) } else { ..;
+    acc.extend(quote!(.. B ..)) }` — the statement that consumes the stream is moved into the branches that produce it"""
+    n = 0
+    for f in crate.fns:
+        for x in walk_json(f.item.get('block')):
+            if not (isinstance(x, dict) and x.get('k') == 'Block' and isinstance(x.get('stmts'), list)):
+                continue
+            changed = True
+            while changed:
+                changed = False
+                st = x['stmts']
+                for i in range(len(st) - 1):
+                    a, b = st[i], st[i + 1]
+                    if a.get('k') != 'Local' or a.get('else') is not None or not isinstance(a.get('init'), dict) or a.get('attrs'):
+                        continue
+                    p = a['pat']
+                    while p.get('k') == 'Type':
+                        p = p['pat']
+                    if p.get('k') != 'Ident' or p.get('mut') or p.get('by_ref'):
+                        continue
+                    name = p['name']
+                    if b.get('k') != 'Expr' or not (_count_uses(b, name) + _hole_uses(b, name)) or (_count_uses(st[i + 2:], name) + _hole_uses(st[i + 2:], name)):
+                        continue
+                    # prefix lets of an inlined block stay in front
+                    e = a['init']
+                    prefix = []
+                    if e.get('k') == 'Block' and e.get('stmts') and all(s_.get('k') == 'Local' for s_ in e['stmts'][:-1]) \
+                            and e['stmts'][-1].get('k') == 'Expr' and not e['stmts'][-1].get('semi') and len(e['stmts']) > 1:
+                        prefix = e['stmts'][:-1]
+                        e = e['stmts'][-1]['expr']
+                    r = _float_into(e, name, b, a.get('l', 0))
+                    if r is None:
+                        continue
+                    x['stmts'] = st[:i] + prefix + [{'k': 'Expr', 'expr': r, 'semi': True, 'l': a.get('l', 0)}] + st[i + 2:]
+                    n += 1
+                    changed = True
+                    break
+    return n
+
+
 def fold_format_literals(crate):
     """`format_ident!("{}{}", "_s_", x)` (a literal argument, typically after a helper `fn binder(prefix: &str, ..)` has been inlined)
     is `format_ident!("_s_{}", x)`: positional `{}` placeholders that receive a string literal are filled in"""
@@ -584,6 +797,8 @@ def inline_helpers(crate):
     for f in list(crate.fns):
         n += _inline_in(crate, f, f.item.get('block'), 0)
     fold_format_literals(crate)
+    case_of_case(crate)
+    float_conditional_streams(crate)
     crate.fully_inlined = set(g for g, k in crate.inlined_into.items() if k >= before.get(g, 0) and k > 0) | getattr(crate, 'method_closures', set())
     return n
 
